@@ -524,7 +524,10 @@ pub fn run_faults(args: &Args, mut out: Out) {
     // ---- connection level (loopback): the failed write, then what handle_http_conn does next ----
     let listener = std::net::TcpListener::bind("127.0.0.1:0").unwrap();
     let addr = listener.local_addr().unwrap();
-    for (what, actual) in [("short", 0usize), ("short", n / 2), ("short", n - 1), ("missing", 0), ("dup_header", n), ("not_normal", n), ("ok", n)] {
+    // (the first answer is a 200 or, for the fault cases, also a 503: a 5xx closes the write side when it SUCCEEDS, and a
+    // failed one must do no less)
+    for (what, actual, code) in [("short", 0usize, 200u16), ("short", n / 2, 200), ("short", n - 1, 200), ("missing", 0, 200), ("short", n / 2, 503),
+                                 ("short", 0, 500), ("missing", 0, 503), ("dup_header", n, 200), ("not_normal", n, 200), ("ok", n, 200)] {
         sid += 1;
         let p = dir.path().join(format!("c{sid}"));
         if what != "missing" {
@@ -533,7 +536,7 @@ pub fn run_faults(args: &Args, mut out: Out) {
         let resp = match what {
             "dup_header" => Response::text(200, "x").with_header("content-type", "a".try_into().unwrap()),
             "not_normal" => Response::drop_connection(),
-            _ => Response::new(200).with_body(ResponseBody::File(p, n as u64)),
+            _ => Response::new(code).with_body(ResponseBody::File(p, n as u64)),
         };
         let mut c = std::net::TcpStream::connect(addr).unwrap();
         c.write_all(b"GET / HTTP/1.1\r\n\r\n").unwrap();
@@ -565,7 +568,7 @@ pub fn run_faults(args: &Args, mut out: Out) {
         out.ev(
             sid,
             "ConnFault",
-            json!({"what":what,"r1":res_kind(&Some(r1)),"ws1":ws1,"r2":res_kind(&Some(r2)),"ws2":ws2,"statusLines":statuses,
+            json!({"what":what,"code":code,"r1":res_kind(&Some(r1)),"ws1":ws1,"r2":res_kind(&Some(r2)),"ws2":ws2,"statusLines":statuses,
                    "firstCode": text.get(9..12).and_then(|s| s.parse::<u64>().ok()).unwrap_or(0),
                    "bytes":got.len(),"bodyBytes": got.len().saturating_sub(head_len(&got)),
                    "bodyIsPrefix": body_is_prefix}),
